@@ -754,13 +754,13 @@ pub fn run(rep: &Report, mode: Mode) -> i32 {
     let fams = families(t);
     let maxlen = match (mode, t) {
         (Mode::Find, false) => 8,
-        (Mode::Find, true) => 10,
+        (Mode::Find, true) => 9,
         (Mode::Replace, false) => 7,
-        (Mode::Replace, true) => 9,
+        (Mode::Replace, true) => 8,
         (Mode::Faults, false) => 6,
-        (Mode::Faults, true) => 8,
+        (Mode::Faults, true) => 7,
         (Mode::Work, false) => 6,
-        (Mode::Work, true) => 8,
+        (Mode::Work, true) => 7,
     };
     let dev_bound = if t { 3 } else { 2 };
     // completeness self-test of the DFS: with an unbounded buffer a stream of
